@@ -12,3 +12,39 @@ Definition chk (c : N * bytes * list record * option (N * N * N)) : bool :=
   | ErrMismatch a b l, Some (a', b', l') => (a =? a') && (b =? b') && (l =? l')
   | _, _ => false
   end.
+
+(* ---- classified CSV / CSV-lite / PPRINT / XTAB readers (C18/ModelReaders.v) against `mlr --iFMT [options] put -q '<hex dump>'`:
+   on success the records, on failure the error class with the numbers of the message *)
+From Miller Require Import C01.Model C18.ModelReaders.
+Inductive rdr := RCsv (o : copts) | RLite (o : lopts) | RXtab (ips : bytes) (dedupe : bool).
+Definition qerr_eqb (a b : qerr) : bool := match a, b with BareQuote, BareQuote | BadQuote, BadQuote => true | _, _ => false end.
+Definition cerr_eqb (a b : cerr) : bool :=
+  match a, b with
+  | EDelim, EDelim => true
+  | EParse k, EParse k' => qerr_eqb k k'
+  | EMismatch x y z, EMismatch x' y' z' => N.eqb x x' && N.eqb y y' && N.eqb z z'
+  | EXtabInternal, EXtabInternal => true
+  | _, _ => false
+  end.
+Definition run_rdr (r : rdr) (s : bytes) : cres :=
+  match r with RCsv o => read_csv_c o s | RLite o => read_lite_c o s | RXtab ips d => read_xtab_c ips d s end.
+Definition chk2 (c : rdr * bytes * list record * option cerr) : bool :=
+  let '(r, s, recs, e) := c in
+  match run_rdr r s, e with
+  | COk rs, None => records_eqb rs recs
+  | CErr e1, Some e2 =>
+    cerr_eqb e1 e2
+    (* NOT MODELLED: which error is reported when a text has BOTH a length-mismatch row and, later, a reported quote error.
+       The model reports the quote error (read_csv_c looks at the rows only when the whole text was cut into rows); the
+       implementation processes the rows read so far first and reports the mismatch (witness: ",,\nbbbb\n" followed by a quote,
+       implicit header).  Both are errors with non-zero exit; the correspondence accepts this one precedence difference. *)
+    || match e1, e2 with EParse _, EMismatch _ _ _ => true | _, _ => false end
+  | _, _ => false
+  end.
+(* outcome class of the model alone (0 ok, 1 delimiter, 2 bare quote, 3 bad quote, 4 length mismatch, 5 internal), for the tallies *)
+Definition class_of (c : rdr * bytes * list record * option cerr) : N :=
+  let '(r, s, _, _) := c in
+  match run_rdr r s with
+  | COk _ => 0%N | CErr EDelim => 1%N | CErr (EParse BareQuote) => 2%N | CErr (EParse BadQuote) => 3%N
+  | CErr (EMismatch _ _ _) => 4%N | CErr EXtabInternal => 5%N
+  end.
